@@ -23,6 +23,8 @@ def _is_position(t):
 def run(prog, tier, repo):
     res = RuleResult('LOC-GUARD', 'C15: a cursor-position test that gates the descent into a child node of the syntax tree tests a '
                      'location of that child or of a node containing it, never the location of a sibling node')
+    global _PROG
+    _PROG = prog
     fam = {b.id: b for b in prog.bodies.values() if b.crate == 'samlang_services' and '::location_cover::' in b.name + '::'}
     descents = {i for i, b in fam.items() if b.kind != 'closure' and any(_is_position(b.locals[k]) for k in range(1, b.nargs + 1))}
     n_guards = 0
@@ -195,6 +197,9 @@ def _is_location(t):
     return t.k == 'adt' and t.name.split('::')[-1] == 'Location' and t.name.startswith('samlang_ast')
 
 
+_PROG = None
+
+
 def _gate_sources(b, bool_local, depth=0, seen=None):
     """What a branch condition is computed from: ('loc', (root, owner-path)) for every Location it depends on through call
     arguments, ('field', (root, path)) when it is a (negated) boolean field read."""
@@ -226,6 +231,43 @@ def _gate_sources(b, bool_local, depth=0, seen=None):
             r, p = operand_root(b, ('c', rv[2]))
             if not rv[2].proj:
                 out += _gate_sources(b, rv[2].local, depth + 1, seen)
+            elif r is not None:
+                nm = _names(p)
+                if nm and nm[-1] in ('loc', 'location') and _is_location(b.locals[sd[2][2].local] if False else b.locals[bool_local]):
+                    out.append(('loc', (r, nm[:-1])))
+        elif rv[0] == 'agg':
+            # closures / tuples: what they capture
+            if rv[1][0] == 'closure' and _PROG is not None:
+                cb = _PROG.bodies.get(rv[1][1])
+                if cb is not None:
+                    for bl in cb.blocks:
+                        t = bl.term
+                        if bl.cleanup or t[0] != 'call':
+                            continue
+                        for o in t[3]:
+                            if o[0] in ('c', 'm') and _is_location(cb.locals[o[1].local]):
+                                r, p = operand_root(cb, o)
+                                if r != 1 or not p:
+                                    continue
+                                k = p[0][1] if p[0][0] == 't' else (p[0][3] if p[0][0] == 'f' else None)
+                                if k is None or k >= len(rv[2]) or rv[2][k][0] not in ('c', 'm'):
+                                    continue
+                                nm_in = _names(p[1:])
+                                if not nm_in or nm_in[-1] not in ('loc', 'location'):
+                                    continue
+                                pr, pp = operand_root(b, rv[2][k])
+                                if pr is not None:
+                                    out.append(('loc', (pr, _names(pp) + nm_in[:-1])))
+            for o in rv[2]:
+                if o[0] in ('c', 'm'):
+                    if _is_location(b.locals[o[1].local]):
+                        r, p = operand_root(b, o)
+                        nm = _names(p)
+                        if r is not None and nm and nm[-1] in ('loc', 'location'):
+                            out.append(('loc', (r, nm[:-1])))
+                            continue
+                    if not o[1].proj:
+                        out += _gate_sources(b, o[1].local, depth + 1, seen)
         return out
     t = sd[2]
     for o in t[3]:
@@ -322,3 +364,4 @@ def _widened_by_parser(prog, owner_field, child_field):
     if found and good == found:
         return f'every parser construction widens it with Location::union first ({where})'
     return None
+
